@@ -37,6 +37,8 @@ pub fn suites() -> Vec<(&'static str, Suite)> {
         ("aa_spans", c03::run_aa_spans as Suite),
         ("hair_spans", c06::run_hair_spans as Suite),
         ("hair_aa", c06::run_hair_aa as Suite),
+        ("big_draw", c01::run_big_draw as Suite),
+        ("stroke_fp", c06::run_stroke_fp as Suite),
         ("hair_px", c06::run_hair_px as Suite),
         ("line_clip", c06::run_line_clip as Suite),
         ("dash_new", c07::run_dash_new as Suite),
